@@ -68,6 +68,9 @@ type Exec struct {
 	assignsOn     bool
 	assignsAll    bool
 	usedContracts map[string]bool
+	topFrame      *Frame
+	revealed      map[string]bool
+	usedLemmas    map[string]bool
 }
 
 type unsupportedErr struct{ msg string }
@@ -79,7 +82,7 @@ func (ex *Exec) unsupportedf(format string, a ...interface{}) {
 func newExec(ld *Loader, db *ContractDB, fn *ssa.Function) *Exec {
 	return &Exec{ld: ld, db: db, top: fn, vc: newVC(funcName(fn)), comps: map[string]compInfo{},
 		escaped: map[string]bool{}, oblCount: map[string]int{}, abstracted: map[string]bool{}, maxInline: 4,
-		epochInfo: map[int]epochInfo{}, ifacePayload: map[string]ifaceRec{}, heldAtEntry: map[string]bool{}, usedContracts: map[string]bool{}}
+		epochInfo: map[int]epochInfo{}, ifacePayload: map[string]ifaceRec{}, heldAtEntry: map[string]bool{}, usedContracts: map[string]bool{}, revealed: map[string]bool{}, usedLemmas: map[string]bool{}}
 }
 
 // funcName gives the stable short name used in contracts and obligation
